@@ -1,4 +1,4 @@
-use crate::util::{Compact, TimeUntil};
+use crate::util::{Compact, Deadlines, TimeUntil};
 use fnv::FnvHashMap;
 use futures::future::{AbortHandle, AbortRegistration};
 use std::{
@@ -6,7 +6,7 @@ use std::{
     task::{Context, Poll},
     time::Instant,
 };
-use tokio_util::time::delay_queue::{self, DelayQueue};
+use tokio_util::time::delay_queue;
 use tracing::Span;
 
 /// A data structure that tracks in-flight requests. It aborts requests,
@@ -14,7 +14,7 @@ use tracing::Span;
 #[derive(Debug, Default)]
 pub struct InFlightRequests {
     request_data: FnvHashMap<u64, RequestData>,
-    deadlines: DelayQueue<u64>,
+    deadlines: Deadlines,
 }
 
 /// Data needed to clean up a single in-flight request.
@@ -54,7 +54,7 @@ impl InFlightRequests {
     ) -> Result<AbortRegistration, AlreadyExistsError> {
         match self.request_data.entry(request_id) {
             hash_map::Entry::Vacant(vacant) => {
-                let timeout = deadline.time_until().min(crate::util::MAX_TIMEOUT);
+                let timeout = deadline.time_until();
                 let (abort_handle, abort_registration) = AbortHandle::new_pair();
                 let deadline_key = self.deadlines.insert(request_id, timeout);
                 vacant.insert(RequestData {
